@@ -65,9 +65,10 @@ Definition sub_of_props (st : P.pbuilder) : sub_state := mk_sub (map witness_of 
 
 (* the C09 builder state of a C10 transaction-builder state (native scripts are not in the C10 model) *)
 Definition builder_of (t : P.txb) (ncol : N) (extra : option (list pdata)) (h : option bytes) (a : option aux_data) : builder :=
+  (* the hash, if any, counts as given by the caller (flag false) *)
   mk_builder (sub_of_inputs (P.t_inputs t)) (sub_of_inputs (P.t_collateral t)) (sub_of_mint (P.t_mint t))
              (sub_of_certs (P.t_certs t)) (sub_of_wdrl (P.t_wdrl t)) (sub_of_votes (P.t_votes t)) (sub_of_props (P.t_props t))
-             ncol extra h a.
+             ncol extra h false a.
 
 (* calc_script_data_hash's language set written over the ENTRIES, as the code reads it from the sub-builders:
    inputs / collateral only `if let Some(..) = get_plutus_input_scripts()` *)
